@@ -176,6 +176,13 @@ def _walk_item(ex, st, k):
         z3.Implies(z3.And(fresh_tile, z3.Not(wm)), z3.BoolVal(len(tl) == 1 and is_sub(tl[0].args[-1]))),
         z3.Implies(z3.And(fresh_tile, wm, hall),
                    z3.BoolVal(len(procs) == 1 and isinstance(procs[0].args[0], VSeq))))
+    if 'handle_tiles' in st.env and apl:
+        # whatever the mode (all / uncached / stale) selected from the sub tile goes to the worker pool - exactly when
+        # the selection is non-empty, and as that very list
+        ht = st.env['handle_tiles']
+        g_proc = z3.And(g_proc, ex.truth(st, ht) == z3.BoolVal(len(procs) == 1))
+        for p_ in procs:
+            g_proc = z3.And(g_proc, z3.BoolVal(p_.args[0] is ht))
     yield ('selected_subtile_is_processed', g_proc,
            'a sub tile of a selected level that was not handled before is remembered (appendleft) and handed to the worker pool '
            '(its tile list, or itself when working on meta tiles); nothing is processed on unselected levels or twice')
